@@ -3,6 +3,7 @@ package main
 // C19 — prefix, NLRI, add-path and MP_REACH/MP_UNREACH decoders are exact.
 
 import (
+	"os"
 	"fmt"
 	"go/token"
 	"go/types"
@@ -239,21 +240,73 @@ func (c *Check) nlriWrappers(rule string) {
 		if fn == nil {
 			continue
 		}
+		// the decoder the constructor returns: a closure created here or in a
+		// helper, with its captured variables bound as at creation
+		var bound map[ssa.Value]*Expr
+		var boundMem map[string][2]*Expr
 		if x.closure {
-			if len(fn.AnonFuncs) != 1 {
-				c.fail(rule, x.outer, "closure", p.Pos(fn.Pos()), "expected one returned closure")
+			oa := NewAnalysis(p, fn)
+			oa.Run()
+			var cl *Expr
+			for _, r := range oa.Returns {
+				if res := r.Results[0]; res.Op == "closure" {
+					cl = res
+				}
+			}
+			var cf *ssa.Function
+			if cl != nil {
+				cf = p.Funcs[cl.S]
+			}
+			if cf == nil || len(oa.Returns) != 1 {
+				c.fail(rule, x.outer, "closure", p.Pos(fn.Pos()), "expected the constructor to return one closure")
 				continue
 			}
-			fn = fn.AnonFuncs[0]
+			bound = map[ssa.Value]*Expr{}
+			for i, fv := range cf.FreeVars {
+				if i < len(cl.Args) {
+					bound[fv] = cl.Args[i]
+				}
+			}
+			// captured cells keep the values they hold when the closure is returned
+			boundMem = map[string][2]*Expr{}
+			rst := oa.Returns[0].State
+			for k, me := range rst.memE {
+				if me == nil {
+					continue
+				}
+				root := rootOf(me)
+				for _, b := range cl.Args {
+					if root != nil && root.Key == b.Key {
+						boundMem[k] = [2]*Expr{me, rst.mem[k]}
+					}
+				}
+			}
+			fn = cf
 		}
 		name := p.Name(fn)
+		initBound := func(a *Analysis, st *State) {
+			for fv, e := range bound {
+				st.env[fv] = e
+			}
+			for k, mv := range boundMem {
+				st.memE[k] = mv[0]
+				st.mem[k] = mv[1]
+			}
+		}
 		isErr := func(e *Expr) bool {
 			return e.Op == "nn" && e.Args[0].Op == "ex" && e.Args[0].Args[0].Op == "rcall" && e.Args[0].Args[0].S == x.helper
 		}
 		for _, ev := range []int64{1, 0} {
 			a := NewAnalysis(p, fn)
 			a.AtomHook = rangeHook(isErr, isConst(ev))
+			a.Init = initBound
 			a.Run()
+			if os.Getenv("CBGP_DEBUG") != "" {
+				for _, rr := range a.Returns {
+					fmt.Printf("DEBUG %s ev=%d: %v\n", name, ev, rr.Results)
+				}
+				fmt.Printf("DEBUG boundMem %v\n", boundMem)
+			}
 			ok := len(a.Returns) > 0
 			detail := ""
 			for _, r := range a.Returns {
@@ -293,14 +346,31 @@ func (c *Check) nlriWrappers(rule string) {
 		}
 		// the helper is called with the whole field and the right family
 		a := NewAnalysis(p, fn)
+		a.Init = initBound
 		a.Run()
-		for _, cl := range p.callsIn(fn, descIs(x.helper)) {
-			for _, args := range a.callArgsAt(cl) {
+		nh := 0
+		for _, cl := range p.callsIn(fn, func(string) bool { return true }) {
+			for i, st := range a.At[cl.(ssa.Instruction)] {
+				// the call may be static or through a captured func value
+				callee := ""
+				if f := p.staticLocalCallee(cl); f != nil {
+					callee = p.Name(f)
+				} else if !cl.Common().IsInvoke() {
+					if fv := a.ExprAt(st, cl.Common().Value); fv != nil && fv.Op == "fn" {
+						callee = strings.TrimSuffix(fv.S, "#")
+					}
+				}
+				if callee != x.helper {
+					continue
+				}
+				nh++
+				args := a.callArgsAt(cl)[i]
 				fv, isC := args[1].IsConst()
 				okH := args[0].Op == "param" && isC && fv == x.ipv6
 				c.require(okH, rule, name, "helper arguments", p.InstrPos(cl.(ssa.Instruction)), fmt.Sprintf("%s(whole field, ipv6=%v)", x.helper, x.ipv6 == 1))
 			}
 		}
+		c.require(nh > 0, rule, name, "helper called", p.Pos(fn.Pos()), "the list decoder "+x.helper+" is called")
 	}
 	// IPv6 next hops: 16 or 32 octets only
 	if fn := p.Fn("DecodeMPReachIPv6NextHops"); fn != nil {
